@@ -197,14 +197,41 @@ Proof.
   ok_with; nia.
 Qed.
 
-Lemma alloc_senc_bounded p hs hl body : bounded (alloc_senc p hs hl body) 0 0 1 0 hs.
+Lemma alloc_senc_from_bounded s0 p hs hl body : bounded (alloc_senc_from s0 p hs hl body) 0 0 1 0 hs.
 Proof.
-  unfold alloc_senc. destruct (hs <? 16); [apply bounded_rej|].
+  unfold alloc_senc_from. destruct (hs <? 16); [apply bounded_rej|].
   destruct (negb p && (lenN body <? 8)); [apply bounded_rej|].
-  destruct (rd_n body 4 rd0) as [vf s1]. destruct (0 <? version_of vf); [apply bounded_rej|].
+  destruct (rd_n body 4 s0) as [vf s1]. destruct (0 <? version_of vf); [apply bounded_rej|].
   destruct (rd_n body 4 s1) as [cnt s2]. destruct p.
   - destruct (has (flags_of vf) 2 && (hs - 16 <? 2 * cnt)); [apply bounded_rej|]. ok_with; lia.
   - destruct (has (flags_of vf) 2 && (lenN body - 8 <? 2 * cnt)); [apply bounded_rej|]. ok_with; lia.
+Qed.
+
+Lemma alloc_senc_bounded p hs hl body : bounded (alloc_senc p hs hl body) 0 0 1 0 hs.
+Proof. apply alloc_senc_from_bounded. Qed.
+
+Lemma alloc_uuid_bounded hs hl body : bounded (alloc_uuid hs hl body) 0 4144 1 255 hs.
+Proof.
+  unfold alloc_uuid. set (s := rd_skip body 16 rd0). set (u := if r_err s then [] else firstn 16 body).
+  destruct (eqb_bytes u uuid_tfxd).
+  { destruct (rd_n body 4 s) as [vf s1]. ok_with; lia. }
+  destruct (eqb_bytes u uuid_tfrf).
+  { destruct (rd_n body 4 s) as [vf s1]. pose proof (rd_n_lt body 1 s1) as L. destruct (rd_n body 1 s1) as [cnt s2].
+    cbn [fst] in L. change (256 ^ 1) with 256 in L. ok_with; lia. }
+  destruct (eqb_bytes u uuid_piff).
+  { destruct (hs <? 16) eqn:E; [apply bounded_rej|]. bools.
+    destruct (alloc_senc_from_bounded s true (hs - 16) 8 body) as (o & -> & Ha & Hi).
+    unfold bounded. eexists; split; [reflexivity|]. cbn [o_alloc o_iters]. split; lia. }
+  destruct (hs <? 24); [apply bounded_rej|]. ok_with; lia.
+Qed.
+
+Lemma alloc_ftyp_bounded hs hl body : bounded (alloc_ftyp hs hl body) 0 0 1 0 hs.
+Proof. unfold alloc_ftyp. destruct (apayload_len hs hl <? 8)%Z; [apply bounded_rej|]. ok_with; lia. Qed.
+
+Lemma alloc_styp_bounded p hs hl body : bounded (alloc_styp p hs hl body) 0 0 1 0 hs.
+Proof.
+  unfold alloc_styp. destruct p; [apply alloc_ftyp_bounded|]. destruct (lenN body <? 8); [apply bounded_rej|].
+  unfold bounded. eexists; split; [reflexivity|]. cbn [o_alloc o_iters]. split; lia.
 Qed.
 
 Lemma alloc_sbgp_bounded hs hl body : bounded (alloc_sbgp hs hl body) 1 0 8 0 hs.
@@ -381,11 +408,21 @@ Lemma alloc_sgpd_alst_pinned_balloons :
   exists o, alloc_sgpd_alst false 28 8 alst_witness = Ok o /\ o_alloc o = 4294967292 /\ lenN alst_witness = 20.
 Proof. eexists. split; [vm_compute; reflexivity|]. split; reflexivity. Qed.
 
+Lemma alloc_ftyp_styp_bounded p hs hl body :
+  bounded (alloc_ftyp hs hl body) 0 0 1 0 hs /\ bounded (alloc_styp p hs hl body) 0 0 1 0 hs.
+Proof. split; [apply alloc_ftyp_bounded|apply alloc_styp_bounded]. Qed.
+
 (* ---- sgpd: the whole entry loop ---- *)
+Lemma rd_skip_eq body w s : rd_skip body w s = snd (rd_n body w s).
+Proof. unfold rd_skip, rd_n. destruct (r_err s); [reflexivity|]. destruct (lenN body <? r_pos s + w); reflexivity. Qed.
+
+Lemma rd_skip_pos body w s : r_pos s <= lenN body -> r_pos (rd_skip body w s) <= lenN body.
+Proof. rewrite rd_skip_eq. apply rd_n_pos. Qed.
+
 Lemma rd_skip_state body w s : let s' := rd_skip body w s in
   (r_err s' = true /\ r_pos s' = r_pos s) \/
   (r_err s' = false /\ r_err s = false /\ r_pos s' = r_pos s + w /\ r_pos s' <= lenN body).
-Proof. unfold rd_skip. apply rd_n_state. Qed.
+Proof. rewrite rd_skip_eq. apply rd_n_state. Qed.
 
 Lemma rd_loop_pos body cnt e s : r_pos s <= lenN body -> r_pos (rd_loop body cnt e s) <= lenN body.
 Proof.
@@ -511,7 +548,7 @@ Proof.
   unfold alloc_sgpd.
   assert (P1 := rd_n_pos body 4 rd0 ltac:(cbn; lia)). destruct (rd_n body 4 rd0) as [vf s1]. cbn [snd] in P1.
   set (v := version_of vf). set (k := sgkind_of (firstn 4 (skipn 4 body))).
-  assert (P2 : r_pos (rd_skip body 4 s1) <= lenN body) by (apply rd_n_pos; exact P1).
+  assert (P2 : r_pos (rd_skip body 4 s1) <= lenN body) by (apply rd_skip_pos; exact P1).
   set (s2 := rd_skip body 4 s1) in *.
   assert (V : exists dlen s3, (if 1 <=? v then rd_n body 4 s2 else (0, s2)) = (dlen, s3) /\ r_pos s3 <= lenN body).
   { destruct (1 <=? v).
@@ -519,7 +556,7 @@ Proof.
     - do 2 eexists; split; [reflexivity|assumption]. }
   destruct V as (dlen & s3 & -> & P3).
   assert (P4 : r_pos (if 2 <=? v then rd_skip body 4 s3 else s3) <= lenN body).
-  { destruct (2 <=? v); [apply rd_n_pos|]; exact P3. }
+  { destruct (2 <=? v); [apply rd_skip_pos|]; exact P3. }
   set (s4 := if 2 <=? v then rd_skip body 4 s3 else s3) in *.
   assert (P5 := rd_n_pos body 4 s4 P4). destruct (rd_n body 4 s4) as [cnt s5]. cbn [snd] in P5.
   destruct (sgpd_loop_bounded body k v dlen cnt (S (length body)) 0 s5 0 0 P5) as (ok & n & al & it & -> & Ha & Hi).
@@ -558,6 +595,9 @@ Proof.
   - destruct (alloc_ssix_bounded hs hl body) as (o & -> & ? & ?). exists o. split; [reflexivity|]. split; lia.
   - destruct (alloc_treftype_bounded hs hl body) as (o & -> & ? & ?). exists o. split; [reflexivity|]. split; lia.
   - destruct (alloc_leva_bounded hs hl body) as (o & -> & ? & ?). exists o. split; [reflexivity|]. split; lia.
+  - destruct (alloc_uuid_bounded hs hl body) as (o & -> & ? & ?). exists o. split; [reflexivity|]. split; lia.
+  - destruct (alloc_ftyp_bounded hs hl body) as (o & -> & ? & ?). exists o. split; [reflexivity|]. split; lia.
+  - destruct (alloc_styp_bounded p hs hl body) as (o & -> & ? & ?). exists o. split; [reflexivity|]. split; lia.
 Qed.
 
 Lemma lenN_skipn {A} n (l : list A) : lenN (skipn n l) <= lenN l.
